@@ -1,9 +1,27 @@
 import Dnp3.Model.OutstationTrace
+import Dnp3.Proofs.OutstationC13
+import Dnp3.Props.DbComponent
 /-!
-# C13 — Internal indication bits tell the truth (session plumbing)
+# C13 — Internal indication bits tell the truth
+
+Two layers, both over ALL states / inputs / histories of the models:
+
+* session plumbing (`Dnp3.Proofs.OutstationC13`, the database opaque): which state every IIN bit of
+  every freshly built response is copied from (`iin_of_fresh_response`), the life of the restart
+  bit (`restart_*`: set at construction, cleared only by a WRITE of g80v1 index 7 = 0, never set
+  again), the broadcast bit (`broadcast_*`), the application-controlled bits (`app_bits_mirror`);
+* database component (`Dnp3.Props.DbComponent`): the class bits equal "an unwritten event of that
+  class is buffered" (`class_bits_exact_partial`; the full statement is false, D3/D4), the overflow
+  bit interval (`overflow_flag_*`).
+
+The statements are restated verbatim from the proof files; definitions used in them
+(`StepWriteClears`, `StepFrag`, `BcastOf`, `IsSolConfirm`, `BcEvid`, `clearOut`, …) are in
+`Dnp3.Proofs.OutstationSkel` / `OutstationC13`.
+Known defects: D16 (an unsolicited confirm clears a broadcast indication that was never reported:
+`confirm_clears_broadcast` is the exact characterisation), D3/D4 (class bits, see DbComponent).
 -/
 namespace Dnp3.Props.C13
-open Dnp3
+open Dnp3 Dnp3.Proofs.Frame Dnp3.Proofs.Iin Dnp3.Proofs.Skel Dnp3.Proofs.C13
 
 /-- `get_response_iin` never changes the restart flag, and only clears a non-mandatory broadcast -/
 theorem get_iin_state_effect (s s' : OState) (i1 i2 : Nat) (h : getResponseIin s = some (s', i1, i2)) :
@@ -21,5 +39,181 @@ theorem get_iin_state_effect (s s' : OState) (i1 i2 : Nat) (h : getResponseIin s
       by_cases hm : m = 1
       · simp [hm] at h; obtain ⟨rfl, _, _⟩ := h; simp [hb]
       · simp [hm] at h; obtain ⟨rfl, _, _⟩ := h; exact ⟨rfl, Or.inr ⟨rfl, m, rfl, hm⟩⟩
+
+
+/-! ## Session plumbing -/
+
+/-- **C13.1** (`iin_of_fresh_response`): both kinds of fresh response, with the per-bit reading. -/
+theorem iin_of_fresh_response (a : Acc) (dst : Nat) (r : Resp) (a' : Acc) (r' : Resp) (dst' : Nat)
+    (h : writeSolicited a dst r = some (a', r') ∧ dst' = dst ∨
+         writeUnsolicited a r = some (a', r') ∧ dst' = a.1.cfg.master) :
+    ∃ i1 i2 bytes c1 c2 c3,
+      a'.2 = a.2 ++ [.tx dst' bytes] ∧
+      bytes.take 4 = [r'.ctrl.toNat, r'.func, r.iin1 ||| i1, r.iin2 ||| i2] ∧
+      a.1.db.unwrittenClasses = some (c1, c2, c3) ∧
+      (i1.testBit 7 = a.1.restart) ∧
+      (i1.testBit 1 = c1) ∧ (i1.testBit 2 = c2) ∧ (i1.testBit 3 = c3) ∧
+      (i2.testBit 3 = a.1.db.isOverflown) ∧
+      (i1.testBit 0 = a.1.lastBroadcast.isSome) ∧
+      (i1.testBit 4 = a.1.script.appIin.testBit 0) ∧
+      (i1.testBit 5 = a.1.script.appIin.testBit 1) ∧
+      (i1.testBit 6 = a.1.script.appIin.testBit 2) ∧
+      (i2.testBit 5 = a.1.script.appIin.testBit 3) ∧
+      i1 < 256 ∧ (∀ i, i ≠ 3 → i ≠ 5 → i2.testBit i = false) :=
+  @Dnp3.Proofs.C13.iin_of_fresh_response a dst r a' r' dst' h
+
+/-- **C13.4** (`app_bits_mirror`): need-time, local-control, device-trouble, configuration-corrupt
+    in a fresh response are exactly bits 0–3 of the application's answer at that moment. -/
+theorem app_bits_mirror (a : Acc) (dst : Nat) (r : Resp) (a' : Acc) (r' : Resp)
+    (h : writeSolicited a dst r = some (a', r') ∨ writeUnsolicited a r = some (a', r'))
+    (hr1 : r.iin1 = 0) (hr2 : r.iin2 &&& 0x20 = 0) :
+    r'.iin1.testBit 4 = a.1.script.appIin.testBit 0 ∧
+    r'.iin1.testBit 5 = a.1.script.appIin.testBit 1 ∧
+    r'.iin1.testBit 6 = a.1.script.appIin.testBit 2 ∧
+    r'.iin2.testBit 5 = a.1.script.appIin.testBit 3 :=
+  @Dnp3.Proofs.C13.app_bits_mirror a dst r a' r' h hr1 hr2
+
+/-- the per-step form all of C13.2 follows from -/
+theorem restart_step (env : OEnv) (s : OState) (inp : OInput) :
+    ((Outstation.step env s inp).1.restart = s.restart ∧ clearOut ∉ (Outstation.step env s inp).2) ∨
+    ((Outstation.step env s inp).1.restart = false ∧ clearOut ∈ (Outstation.step env s inp).2 ∧
+      StepWriteClears s inp) :=
+  @Dnp3.Proofs.C13.restart_step env s inp
+
+/-- **C13.2** (`restart_bit_interval`), per step, for every state and every input:
+    * set at construction;
+    * never set again;
+    * unchanged by a disconnect and by a script change — and by `.tick`, `.txn`, `.add` whenever no
+      fragment is left pending (always so on the reachable path, see `restart_step` for the general form);
+    * it falls only in a step that emits `clearRestartIin`;
+    * that callback is emitted only when the fragment handled is a WRITE (function 2) carrying a
+      g80v1 / qualifier 0x00 header whose range reaches index 7 with that bit zero — and then the bit
+      is clear afterwards. -/
+theorem restart_bit_interval (env : OEnv) (s : OState) (inp : OInput) (cfg : OCfg) (evMax : Nat) :
+    (OState.init cfg evMax).restart = true ∧
+    ((Outstation.step env s inp).1.restart = true → s.restart = true) ∧
+    ((inp matches .cut | .setScript _) ∨ (s.pending = none ∧ (inp matches .tick _ | .txn _ | .add ..)) →
+      (Outstation.step env s inp).1.restart = s.restart) ∧
+    (s.restart = true → (Outstation.step env s inp).1.restart = false →
+      OOut.cb .clearRestartIin ∈ (Outstation.step env s inp).2) ∧
+    (OOut.cb .clearRestartIin ∈ (Outstation.step env s inp).2 →
+      (Outstation.step env s inp).1.restart = false ∧ StepWriteClears s inp) :=
+  @Dnp3.Proofs.C13.restart_bit_interval env s inp cfg evMax
+
+/-- the start-up pass leaves the bit set and emits no `clearRestartIin` -/
+theorem restart_at_start (cfg : OCfg) (evMax : Nat) :
+    (Outstation.start cfg evMax).1.restart = true ∧ clearOut ∉ (Outstation.start cfg evMax).2 :=
+  @Dnp3.Proofs.C13.restart_at_start cfg evMax
+
+/-- **C13.2, trace level**: over any input list, `restart` is set at the end iff it was set at the
+    beginning and no step so far emitted `clearRestartIin` — i.e. it is true until the first such step
+    and false from then on (apply to every prefix). -/
+theorem restart_run (env : OEnv) (is : List OInput) (s : OState) :
+    (Outstation.run env s is).1.restart = true ↔
+      s.restart = true ∧ ∀ o ∈ (Outstation.run env s is).2, OOut.cb .clearRestartIin ∉ o :=
+  @Dnp3.Proofs.C13.restart_run env is s
+
+/-- corollary for a whole history from construction -/
+theorem restart_history (cfg : OCfg) (evMax : Nat) (env : OEnv) (is : List OInput) :
+    (Outstation.run env (Outstation.start cfg evMax).1 is).1.restart = true ↔
+      ∀ o ∈ (Outstation.run env (Outstation.start cfg evMax).1 is).2, OOut.cb .clearRestartIin ∉ o :=
+  @Dnp3.Proofs.C13.restart_history cfg evMax env is
+
+/-- (a) a processed broadcast fragment records its confirm mode -/
+theorem broadcast_recorded (a : Acc) (f : Frag) (m : Nat) (ctrl : AppCtrl) (func : Nat)
+    (objs : Except Nat (List ObjHdr)) (raw : List Nat) (a' : Acc)
+    (h : processBroadcast a f m ctrl func objs raw = some a') : a'.1.lastBroadcast = some m :=
+  @Dnp3.Proofs.C13.broadcast_recorded a f m ctrl func objs raw a' h
+
+/-- (b) `getResponseIin` reports a recorded broadcast in IIN1 bit 0 and forgets it unless it is
+    confirm-mandatory (mode 1); it touches nothing else -/
+theorem broadcast_reported (s s' : OState) (i1 i2 : Nat) (h : getResponseIin s = some (s', i1, i2)) :
+    i1.testBit 0 = s.lastBroadcast.isSome ∧
+    s' = { s with lastBroadcast := if s.lastBroadcast = some 1 then some 1 else none } :=
+  @Dnp3.Proofs.C13.broadcast_reported s s' i1 i2 h
+
+/-- (c) while a confirm-mandatory broadcast is unreported-unconfirmed, every solicited response asks for a confirm -/
+theorem broadcast_forces_con (a : Acc) (dst : Nat) (r : Resp) (a' : Acc) (r' : Resp)
+    (h : writeSolicited a dst r = some (a', r')) (hb : a.1.lastBroadcast = some 1) :
+    r'.ctrl.con = true ∧ a'.1.lastBroadcast = some 1 :=
+  @Dnp3.Proofs.C13.broadcast_forces_con a dst r a' r' h hb
+
+/-- **C13.3** (`broadcast_bit_rule`), per step, for every state and input.  With `pf` the fragment the
+    step examines:
+    * `lastBroadcast` ends unchanged, or cleared, or equal to the confirm mode of the broadcast
+      fragment `pf`;
+    * it is *set* only in a step that processed a broadcast (`Cb.broadcast` in the outputs);
+    * a confirm-mandatory record (`some 1`) persists unless the step shows an accepted solicited /
+      unsolicited confirm or a new broadcast — or `pf` is a solicited CONFIRM (the silent
+      "solicited confirm during the unsolicited wait" case);
+    * nothing at all changes it in a step that transmits no response and shows none of those. -/
+theorem broadcast_bit_rule (env : OEnv) (s : OState) (inp : OInput) :
+    ∃ pf, StepFrag env s inp pf ∧
+      ((Outstation.step env s inp).1.lastBroadcast = s.lastBroadcast ∨
+        (Outstation.step env s inp).1.lastBroadcast = none ∨
+        ∃ m, BcastOf pf m ∧ (Outstation.step env s inp).1.lastBroadcast = some m) ∧
+      ((∀ o ∈ (Outstation.step env s inp).2, OOut.kind o ≠ .bcast) →
+        (Outstation.step env s inp).1.lastBroadcast = s.lastBroadcast ∨
+        (Outstation.step env s inp).1.lastBroadcast = none) ∧
+      (¬ IsSolConfirm pf → (∀ o ∈ (Outstation.step env s inp).2, ¬ BcEvid o) →
+        s.lastBroadcast = some 1 → (Outstation.step env s inp).1.lastBroadcast = some 1) ∧
+      (¬ IsSolConfirm pf → (∀ o ∈ (Outstation.step env s inp).2, ¬ BcEvid o ∧ OOut.kind o ≠ .tx) →
+        (Outstation.step env s inp).1.lastBroadcast = s.lastBroadcast) :=
+  @Dnp3.Proofs.C13.broadcast_bit_rule env s inp
+
+/-- (d) the three accepted confirms really clear a confirm-mandatory record -/
+theorem confirm_clears_broadcast (a : Acc) (o : List OOut) (c : Cb) (isNull : Bool) :
+    (clearWrittenEvents ({ a.1 with lastBroadcast := none }, o)).1.lastBroadcast = none ∧
+    (afterUnsolSeries (emitCb ({ a.1 with lastBroadcast := none }, a.2) c) isNull true).1.1.lastBroadcast = none ∧
+    (if a.1.lastBroadcast = some 1 then (({ a.1 with lastBroadcast := none }, a.2) : Acc) else a).1.lastBroadcast ≠ some 1 :=
+  @Dnp3.Proofs.C13.confirm_clears_broadcast a o c isNull
+
+
+/-! ## Database component (restated from `Dnp3.Props.Db`) -/
+
+section Db
+open Dnp3.DbM Dnp3.DbProofs
+
+/-- `class_bits_exact`, partial: after every history without a `Written` record overflowed out,
+    `unwritten_classes` does not panic and bit c is set iff the buffer holds a class-c record
+    that is not `Written` -/
+theorem class_bits_exact_partial (evMax : Nat) (sel : Option Nat) (ops : List DbOp)
+    (hs : SafeRun (Db.new evMax sel) ops) :
+    ∃ b1 b2 b3, (run (Db.new evMax sel) ops).unwrittenClasses = some (b1, b2, b3) ∧
+      (b1 = true ↔ ∃ r ∈ (run (Db.new evMax sel) ops).events, r.cls = 1 ∧ r.st ≠ .written) ∧
+      (b2 = true ↔ ∃ r ∈ (run (Db.new evMax sel) ops).events, r.cls = 2 ∧ r.st ≠ .written) ∧
+      (b3 = true ↔ ∃ r ∈ (run (Db.new evMax sel) ops).events, r.cls = 3 ∧ r.st ≠ .written) :=
+  @Dnp3.Props.Db.class_bits_exact_partial evMax sel ops hs
+
+/-- the overflow flag: raised by every discard, never lowered by an insert, and after a clear it
+    is set iff it was set and some type is still at capacity -/
+theorem overflow_flag_interval (db : Db) (idx cls : Nat) (t : PtType) (m : Meas) (dv : Nat) :
+    (∀ c d, (db.insert idx cls t m dv).2 = .overflow c d → (db.insert idx cls t m dv).1.isOverflown = true) ∧
+    (db.isOverflown = true → (db.insert idx cls t m dv).1.isOverflown = true) ∧
+    db.clearWritten.1.isOverflown = (db.isOverflown && db.clearWritten.1.isAnyFull) :=
+  @Dnp3.Props.Db.overflow_flag_interval db idx cls t m dv
+
+/-- nothing but insert and clear changes the flag -/
+theorem overflow_flag_frame (db : Db) (op : DbOp)
+    (h : match op with | .update .. => False | .clear => False | _ => True) :
+    (step db op).isOverflown = db.isOverflown :=
+  @Dnp3.Props.Db.overflow_flag_frame db op h
+
+/-- with exact totals (always, `total_exact_invariant`) "some type at capacity" is a statement
+    about the records in the buffer -/
+theorem any_full_iff (db : Db) (h : TotalExact db) :
+    db.isAnyFull = true ↔ db.evMax ≠ 0 ∧
+      (db.evMax ≤ db.events.countP (fun r => r.ty == .binary) ∨ db.evMax ≤ db.events.countP (fun r => r.ty == .analog)) :=
+  @Dnp3.Props.Db.any_full_iff db h
+
+/-- an overflow is reported, raises the overflow flag, and discards the OLDEST record of the type -/
+theorem overflow_reported_discards_oldest (db : Db) (idx cls : Nat) (t : PtType) (m : Meas) (dv c dId : Nat)
+    (ho : Ordered db) (h : (db.insert idx cls t m dv).2 = .overflow c dId) :
+    ∃ d ∈ db.events, d.id = dId ∧ d.ty = t ∧ (db.insert idx cls t m dv).1.overflown = true ∧
+      ∀ r ∈ db.events, r.ty = t → r ≠ d → d.id < r.id :=
+  @Dnp3.Props.Db.overflow_reported_discards_oldest db idx cls t m dv c dId ho h
+
+
+end Db
 
 end Dnp3.Props.C13
